@@ -4,6 +4,7 @@ import (
 	"bytes"
 	"context"
 	"encoding/json"
+	"io"
 
 	"github.com/goccy/go-json/internal/encoder"
 )
@@ -350,16 +351,37 @@ func HTMLEscape(dst *bytes.Buffer, src []byte) {
 
 // Valid reports whether data is a valid JSON encoding.
 func Valid(data []byte) bool {
+	// A Decoder may be positioned inside a container (after Token), so Decode steps
+	// over one comma or colon in front of a value. A JSON text cannot start with either.
+	for _, c := range data {
+		if c == ' ' || c == '\t' || c == '\r' || c == '\n' {
+			continue
+		}
+		if c == ',' || c == ':' {
+			return false
+		}
+		break
+	}
 	var v interface{}
-	decoder := NewDecoder(bytes.NewReader(data))
-	err := decoder.Decode(&v)
-	if err != nil {
+	r := bytes.NewReader(data)
+	decoder := NewDecoder(r)
+	if err := decoder.Decode(&v); err != nil {
 		return false
 	}
-	if !decoder.More() {
-		return true
+	// only white space may follow the value
+	rest := io.MultiReader(decoder.Buffered(), r)
+	var buf [512]byte
+	for {
+		n, err := rest.Read(buf[:])
+		for _, c := range buf[:n] {
+			if c != ' ' && c != '\t' && c != '\r' && c != '\n' {
+				return false
+			}
+		}
+		if err != nil {
+			return true
+		}
 	}
-	return decoder.InputOffset() >= int64(len(data))
 }
 
 func init() {
